@@ -259,6 +259,8 @@ ArmMisc(w) ==
              src |-> [t |-> "reg", n |-> m],
              unp |-> m = 15 \/ Slice(w, 19, 16) = 0 \/ Slice(w, 15, 12) # 15 \/ Slice(w, 11, 8) # 0]
        [] op2 = 7 /\ op = 3 -> [k |-> "smc", enc |-> "SMC_A1", unp |-> Slice(w, 19, 8) # 0]
+       \* BKPT: the debug-event hook of the emulator is a documented mock (UNPREDICTABLE unless cond = AL)
+       [] op2 = 7 /\ op = 1 -> Unimpl("bkpt")
        \* ERET A1 belongs to the Virtualization Extensions, which the emulator documents as not implemented in ARM state
        [] op2 = 6 /\ op = 3 -> Unimpl("arm-eret-virt-ext")
        \* MRS / MSR (banked register): Virtualization Extensions, documented as not implemented
@@ -279,7 +281,7 @@ ArmSync(w, dx) ==
       sbo == Slice(w, 11, 8) = 15
       size == CASE op \div 2 = 4 -> 4 [] op \div 2 = 5 -> 8 [] op \div 2 = 6 -> 1 [] OTHER -> 2
   IN IF dx.arch < 6 THEN Unspec("arm-sync-pre-v6")
-     ELSE IF op \in {0, 4} THEN Unspec("arm-swp")
+     ELSE IF op \in {0, 4} THEN Unimpl("arm-swp")            \* SWP / SWPB: the emulator reports them deprecated and takes UNDEFINED
      ELSE IF op < 8 THEN Undef
      ELSE IF op % 2 = 1
      THEN [k |-> "ldrex", enc |-> "LDREX" \o ExSfx(size) \o "_A1", size |-> size, t |-> r12, t2 |-> (r12 + 1) % 16, n |-> n,
@@ -488,6 +490,7 @@ T16Misc(h, dx) ==
                                a |-> Bits(h, 2, 2) = 1, i_ |-> Bits(h, 1, 1) = 1, f |-> Bits(h, 0, 0) = 1,
                                changemode |-> FALSE, mode |-> 0,
                                unp |-> InITBlock(dx.it) \/ Bits(h, 2, 0) = 0 \/ Bits(h, 3, 3) # 0]
+    [] Bits(h, 11, 8) = 14 -> Unimpl("bkpt")                                   \* BKPT T1 (0xBExx)
     [] OTHER -> Unspec("t16-misc")
 
 T16CondBranchSvc(h, dx) ==
